@@ -164,6 +164,57 @@ func c02Clock(c *Ctx) {
 			c.R.OK(rule, name+": reads the clock", c.P.Pos(call.Pos()), why)
 		}
 	}
+	// the reading is used at full resolution
+	for _, fn := range c.P.RepoFuncs(func(rel string) bool { return rel == "" || rel == "sqlite" || rel == "writetime" }) {
+		for _, call := range an.Calls(fn) {
+			f := call.Common().StaticCallee()
+			if f == nil || an.PkgPathOf(f) != "time" || f.Name() != "Now" {
+				continue
+			}
+			cv, ok := call.(ssa.Value)
+			if !ok {
+				continue
+			}
+			coarse := ""
+			seen := map[ssa.Value]bool{}
+			var walk func(v ssa.Value, d int)
+			walk = func(v ssa.Value, d int) {
+				if v == nil || seen[v] || d > 6 || v.Referrers() == nil {
+					return
+				}
+				seen[v] = true
+				for _, r := range *v.Referrers() {
+					cl, ok := r.(*ssa.Call)
+					if !ok {
+						if st, ok := r.(*ssa.Store); ok && st.Val == v {
+							if al, ok := st.Addr.(*ssa.Alloc); ok { // spilled receiver
+								for _, ar := range *al.Referrers() {
+									if ld, ok := ar.(*ssa.UnOp); ok {
+										walk(ld, d+1)
+									}
+								}
+							}
+						}
+						continue
+					}
+					g := cl.Call.StaticCallee()
+					if g == nil || an.PkgPathOf(g) != "time" || len(cl.Call.Args) == 0 || cl.Call.Args[0] != v {
+						continue
+					}
+					switch g.Name() {
+					case "Truncate", "Round", "Unix", "Format", "Date", "Clock":
+						coarse = "time.Time." + g.Name()
+					case "UTC", "In", "Local":
+						walk(cl, d+1)
+					}
+				}
+			}
+			walk(cv, 0)
+			name := core.FuncName(fn)
+			c.R.Cond(coarse == "", rule, name+": clock at full resolution", c.P.Pos(call.Pos()),
+				"the clock reading is used as it is", "the clock reading is coarsened by "+coarse+" before it becomes a write time: statements of one connection within the same unit tie, and a tie keeps the stored value — an UPDATE right after a write of the same row is dropped, a re-INSERT after a DELETE fails")
+		}
+	}
 }
 
 func c02NoChange(c *Ctx) {
@@ -435,7 +486,8 @@ func c02MergePairing(c *Ctx) {
 func init() {
 	register(&Rule{Name: "C02.decide-by-time", Min: 4, Run: c02DecideByTime,
 		Doc: "every branch of MergeRows depends only on delete flags, column presence and write times — never on the column values themselves"})
-	byProp["C02"] = append(byProp["C02"], "C02.decide-by-time", "C03.merge-inserts")
+	byProp["C02"] = append(byProp["C02"], "C02.decide-by-time", "C03.merge-inserts", "C05.txtime")
+	explain["C02"] += " txtime (shared with C05): the write time a statement is stamped with is the connection's explicit write_time whenever one is set — a transaction end clears only a time that BEGIN itself fixed."
 	byProp["C01"] = append(byProp["C01"], "C02.decide-by-time")
 	explain["C02"] += " decide-by-time: last-write-wins means the winner of a column is chosen by write time alone; a branch that looks at the values (\"equal values are no conflict, keep the entry that is there\") keeps the older write time and lets a third, in-between write win later. merge-inserts (shared with C03): the merge callback is applied, and its result inserted, for every key whose entries differ."
 }
